@@ -152,6 +152,20 @@ static void do_step(Run &R, int w, int salt) {
                 if (o.rc > 0) r.fail("positive rc");
             }
             { FragSet fs; fs.build(frs, {}); DecodeOut o = decode(R.desc, fs, R.s.fraglen, 0); if (o.rc == 0 && o.out != R.s.data) r.fail("decode beyond tolerance succeeded with wrong bytes"); }
+            // the planner failing on its own: the lost set split into a rebuild list and an exclude list in every way
+            for (size_t cut = 1; cut <= lost.size(); cut++) {
+                std::vector<int> Rl(lost.begin(), lost.begin() + cut), Xl(lost.begin() + cut, lost.end());
+                for (int extra = 0; extra < 2; extra++) {
+                    if (extra) for (int i = 0; i < n && (int)Xl.size() < g.hd + 1; i++) if (!gone[i]) Xl.push_back(i);      // longer exclude list
+                    int *rl = (int *)malloc(sizeof(int) * (Rl.size() + 1)), *xl = (int *)malloc(sizeof(int) * (Xl.size() + 1)), *nl = (int *)malloc(sizeof(int) * n);
+                    for (size_t i = 0; i < Rl.size(); i++) rl[i] = Rl[i]; rl[Rl.size()] = -1;
+                    for (size_t i = 0; i < Xl.size(); i++) xl[i] = Xl[i]; xl[Xl.size()] = -1;
+                    for (int i = 0; i < n; i++) nl[i] = -1;
+                    int rc = liberasurecode_fragments_needed(R.desc, rl, xl, nl);
+                    if (rc > 0) r.fail("fragments_needed returned a positive code");
+                    free(rl); free(xl); free(nl);
+                }
+            }
             return;
         }
         case W_NEEDED: {
